@@ -16,10 +16,12 @@ SINK_RULE = {'CTOR': 'AX-CTOR', 'KERNEL': 'AX-KERNEL', 'STORE': 'AX-STORE',
              'IDAPI': 'AX-IDAPI', 'MATOP': 'AX-MATOP', 'SHAPE': 'AX-SHAPE',
              'OWNER': 'AX-OWNER', 'REINDEX': 'OR-REINDEX', 'RET': 'AX-RET',
              'TRUTH': 'AX-TRUTH', 'MAJOR': 'AX-MAJOR', 'DDICT': 'EF-DDICT',
-             'ORDER': 'AX-ORDER'}
+             'ORDER': 'AX-ORDER', 'DTYPE': 'TA-DTYPE',
+             'LABEL': 'AX-LABEL'}
 
 MODE_PARAMS = {'one_to_many': [True, False], 'by_id': [True, False],
-               'dense': [True, False]}
+               'dense': [True, False], 'binary': [True, False],
+               'observations': [True, False]}
 
 _CACHE = {}
 
@@ -42,6 +44,9 @@ def axis_values(func):
     d = param_default(func, 'axis')
     if d is not None and const_str(d):
         vals.add(const_str(d))
+    doc = ast.get_docstring(func) or ''
+    if "'whole'" in doc or '"whole"' in doc:
+        vals.add('whole')     # documented value handled by an else branch
     return sorted(vals)
 
 
@@ -457,6 +462,13 @@ RULE_TEXT = {
                 'the order the positions refer to; ids and metadata placed '
                 'in a constructor slot are laid out in the order of the '
                 'matrix they label',
+    'AX-LABEL': 'a report line labelled with one axis prints the count of '
+                'that axis of the table passed in (a transposed working '
+                'copy swaps them back)',
+    'TA-DTYPE': 'matrix values are only stored into arrays / accumulators '
+                'allocated with float64 or the table dtype; id arrays are '
+                'not allocated with the fixed-width dtype of another id '
+                'array',
     'AX-TRUTH': 'a position on an axis (which may be 0) is never used as a '
                 'truth value',
     'AX-MAJOR': 'compressed-storage arrays (indptr / indices) of a table\'s '
